@@ -1,2 +1,204 @@
-(* C35 — stub, replaced below *)
-From WK Require Import Base.Base Model.ChannelId.
+(* C35 — Person and command channel ids are canonical.
+   Only statements, each closed by [exact] of a lemma from Proof/ChannelId.v.
+   Strings are arbitrary byte lists (no length bound, any bytes).
+   [join l r] = l ++ "@" ++ r;  [clean u] = u is non-empty and contains no "@";
+   None = ErrInvalidPersonChannel / ErrInvalidAgentChannel. *)
+From WK Require Import Base.Base Model.Crc32 Gen.Consts_C35 Model.ChannelId Proof.ChannelId.
+Open Scope N_scope.
+
+(* the person-channel id of two users is the same whichever user sends — for all
+   pairs: equal uids, equal CRCs (tie broken by string order), any bytes *)
+Theorem c35_symmetric : forall a b, EncodePersonChannel a b = EncodePersonChannel b a.
+Proof. exact encode_sym. Qed.
+Print Assumptions c35_symmetric.
+
+(* the id is a@b or b@a; the uid with the larger CRC-32 is written first, on
+   equal CRCs the larger string *)
+Theorem c35_encode_shape : forall a b,
+  exists x y, EncodePersonChannel a b = join x y
+    /\ ((x = a /\ y = b) \/ (x = b /\ y = a))
+    /\ (crc32_bitwise y < crc32_bitwise x
+        \/ (crc32_bitwise y = crc32_bitwise x /\ bytes_gtb y x = false)).
+Proof. exact encode_first. Qed.
+Print Assumptions c35_encode_shape.
+
+(* DecodePersonChannel succeeds exactly on l@r with l, r non-empty and "@"-free *)
+Theorem c35_decode_spec : forall c p0 p1,
+  DecodePersonChannel c = Some (p0, p1) <->
+  c = join p0 p1 /\ clean p0 = true /\ clean p1 = true.
+Proof. exact decode_spec. Qed.
+Print Assumptions c35_decode_spec.
+
+(* decoding the canonical id yields the two users (in the written order) *)
+Theorem c35_decode_encode : forall a b, clean a = true -> clean b = true ->
+  exists x y, DecodePersonChannel (EncodePersonChannel a b) = Some (x, y)
+    /\ EncodePersonChannel a b = join x y
+    /\ ((x = a /\ y = b) \/ (x = b /\ y = a))
+    /\ (crc32_bitwise y < crc32_bitwise x
+        \/ (crc32_bitwise y = crc32_bitwise x /\ bytes_gtb y x = false)).
+Proof. exact decode_encode. Qed.
+Print Assumptions c35_decode_encode.
+
+(* whatever the uids, a successful decode of the canonical id never yields
+   anything but the two users *)
+Theorem c35_decode_encode_sound : forall a b x y,
+  DecodePersonChannel (EncodePersonChannel a b) = Some (x, y) ->
+  EncodePersonChannel a b = join x y /\ ((x = a /\ y = b) \/ (x = b /\ y = a))
+  /\ clean a = true /\ clean b = true.
+Proof. exact decode_encode_sound. Qed.
+Print Assumptions c35_decode_encode_sound.
+
+(* uids that are empty or contain "@" (the package does not exclude them) give an
+   id that is rejected by the decoder — fail closed, never a wrong pair *)
+Theorem c35_at_sign_rejected : forall a b, clean a && clean b = false ->
+  DecodePersonChannel (EncodePersonChannel a b) = None.
+Proof. exact decode_encode_unclean. Qed.
+Print Assumptions c35_at_sign_rejected.
+
+(* NormalizePersonChannel: exact characterisation of success *)
+Theorem c35_normalize_spec : forall s c r,
+  NormalizePersonChannel s c = Some r <->
+  s <> [] /\ c <> [] /\
+  ((contains at_sign c = false /\ r = EncodePersonChannel s c)
+   \/ (exists l r', c = join l r' /\ clean l = true /\ clean r' = true
+                    /\ (l = s \/ r' = s) /\ r = EncodePersonChannel l r')).
+Proof. exact normalize_spec. Qed.
+Print Assumptions c35_normalize_spec.
+
+(* a sender can only address a person channel that contains them: every id
+   returned to sender s is the id of s and one other uid, written s@o or o@s … *)
+Theorem c35_sender_must_belong : forall s c r,
+  NormalizePersonChannel s c = Some r ->
+  s <> [] /\ exists o, r = EncodePersonChannel s o /\ (r = join s o \/ r = join o s).
+Proof. exact normalize_sender_belongs. Qed.
+Print Assumptions c35_sender_must_belong.
+
+(* … an id of two other users is rejected, and so is an undecodable id *)
+Theorem c35_foreign_channel_rejected : forall s c l r',
+  DecodePersonChannel c = Some (l, r') -> l <> s -> r' <> s ->
+  NormalizePersonChannel s c = None.
+Proof. exact normalize_rejects_foreign. Qed.
+Print Assumptions c35_foreign_channel_rejected.
+
+Theorem c35_undecodable_rejected : forall s c,
+  contains at_sign c = true -> DecodePersonChannel c = None -> NormalizePersonChannel s c = None.
+Proof. exact normalize_rejects_undecodable. Qed.
+Print Assumptions c35_undecodable_rejected.
+
+(* both users obtain the same canonical id, from the peer's uid and from the id
+   itself: normalizing an already canonical id changes nothing *)
+Theorem c35_normalize_canonical : forall a b, clean a = true -> clean b = true ->
+  NormalizePersonChannel a b = Some (EncodePersonChannel a b)
+  /\ NormalizePersonChannel b a = Some (EncodePersonChannel a b)
+  /\ NormalizePersonChannel a (EncodePersonChannel a b) = Some (EncodePersonChannel a b)
+  /\ NormalizePersonChannel b (EncodePersonChannel a b) = Some (EncodePersonChannel a b).
+Proof. exact normalize_canonical. Qed.
+Print Assumptions c35_normalize_canonical.
+
+(* normalization is idempotent on every input, for a sender uid without "@" *)
+Theorem c35_normalize_idempotent : forall s c r, contains at_sign s = false ->
+  NormalizePersonChannel s c = Some r -> NormalizePersonChannel s r = Some r.
+Proof. exact normalize_idempotent. Qed.
+Print Assumptions c35_normalize_idempotent.
+
+(* the "@"-in-sender corner, stated exactly: the id is produced but can be
+   neither decoded nor normalized again (so idempotence needs its hypothesis) *)
+Theorem c35_at_sender_corner : forall s c,
+  contains at_sign s = true -> c <> [] -> contains at_sign c = false ->
+  exists r, NormalizePersonChannel s c = Some r
+            /\ DecodePersonChannel r = None /\ NormalizePersonChannel s r = None.
+Proof. exact normalize_at_sender_not_idempotent. Qed.
+Print Assumptions c35_at_sender_corner.
+
+(* command channels: idempotent … *)
+Theorem c35_cmd_idempotent : forall x,
+  ToCommandChannel (ToCommandChannel x) = ToCommandChannel x
+  /\ IsCommandChannel (ToCommandChannel x) = true.
+Proof. intro x. split; [exact (to_command_idempotent x)|exact (to_command_is_command x)]. Qed.
+Print Assumptions c35_cmd_idempotent.
+
+(* … and reversible on ids that do not already carry the suffix *)
+Theorem c35_cmd_reversible : forall x, IsCommandChannel x = false ->
+  FromCommandChannel (ToCommandChannel x) = (x, true).
+Proof. exact from_to_command. Qed.
+Print Assumptions c35_cmd_reversible.
+
+Theorem c35_cmd_injective : forall x y, IsCommandChannel x = false -> IsCommandChannel y = false ->
+  ToCommandChannel x = ToCommandChannel y -> x = y.
+Proof. exact to_command_injective. Qed.
+Print Assumptions c35_cmd_injective.
+
+(* FromCommandChannel: identity+false without the suffix, else strips exactly one *)
+Theorem c35_cmd_from_spec : forall x,
+  (IsCommandChannel x = false /\ FromCommandChannel x = (x, false))
+  \/ (IsCommandChannel x = true /\ exists y, FromCommandChannel x = (y, true)
+        /\ x = y ++ CommandChannelSuffix).
+Proof. exact from_command_spec. Qed.
+Print Assumptions c35_cmd_from_spec.
+
+Theorem c35_cmd_to_from : forall x y,
+  FromCommandChannel x = (y, true) -> IsCommandChannel y = false -> ToCommandChannel y = x.
+Proof. exact to_from_command. Qed.
+Print Assumptions c35_cmd_to_from.
+
+(* the non-injective corner inherent to "apply once": an id already ending in the
+   suffix is left alone, so From(To x) strips a suffix x already had *)
+Theorem c35_cmd_suffix_corner : forall x, IsCommandChannel x = true ->
+  ToCommandChannel x = x
+  /\ exists y, FromCommandChannel (ToCommandChannel x) = (y, true) /\ x = y ++ CommandChannelSuffix.
+Proof. exact command_suffix_corner. Qed.
+Print Assumptions c35_cmd_suffix_corner.
+
+(* agent channels decode back to (uid, agent) *)
+Theorem c35_agent_roundtrip : forall u g, clean u = true -> clean g = true ->
+  DecodeAgentChannel (EncodeAgentChannel u g) = Some (u, g).
+Proof. exact agent_decode_encode. Qed.
+Print Assumptions c35_agent_roundtrip.
+
+Theorem c35_agent_sound : forall u g x y,
+  DecodeAgentChannel (EncodeAgentChannel u g) = Some (x, y) ->
+  x = u /\ y = g /\ clean u = true /\ clean g = true.
+Proof. exact agent_decode_encode_sound. Qed.
+Print Assumptions c35_agent_sound.
+
+(* the monitor evaluated on implementation traces accepts every trace the model
+   can produce (all inputs, no hypothesis), and the model never mismatches itself *)
+Theorem c35_model_satisfies_monitor : forall a b c x, C35_monitor (c35_model a b c x) = 0.
+Proof. exact model_satisfies_monitor. Qed.
+Print Assumptions c35_model_satisfies_monitor.
+
+Theorem c35_model_no_mismatch : forall a b c x, C35_mismatch (c35_model a b c x) = false.
+Proof. exact model_no_mismatch. Qed.
+Print Assumptions c35_model_no_mismatch.
+
+(* ---- non-vacuity --------------------------------------------------------------- *)
+
+(* "u1" / "u2": distinct CRCs *)
+Example c35_ex_plain :
+  EncodePersonChannel (hx "7531") (hx "7532") = hx "7532407531"
+  /\ DecodePersonChannel (hx "7532407531") = Some (hx "7532", hx "7531")
+  /\ NormalizePersonChannel (hx "7531") (hx "7531407532") = Some (hx "7532407531")
+  /\ NormalizePersonChannel (hx "7533") (hx "7531407532") = None.
+Proof. vm_compute. repeat split. Qed.
+
+(* "vkqmni" and "etchd": a genuine CRC-32 collision (both 3737586044) — the
+   string-order tie-break decides, and both argument orders give vkqmni@etchd *)
+Example c35_ex_collision :
+  crc32_bitwise (hx "766b716d6e69") = 3737586044 /\ crc32_bitwise (hx "6574636864") = 3737586044
+  /\ EncodePersonChannel (hx "766b716d6e69") (hx "6574636864") = hx "766b716d6e69406574636864"
+  /\ EncodePersonChannel (hx "6574636864") (hx "766b716d6e69") = hx "766b716d6e69406574636864".
+Proof. vm_compute. repeat split. Qed.
+
+(* the "@" corner is inhabited: sender "a@b", peer "x" *)
+Example c35_ex_at_corner :
+  NormalizePersonChannel (hx "614062") (hx "78") = Some (hx "6140624078")
+  /\ NormalizePersonChannel (hx "614062") (hx "6140624078") = None.
+Proof. vm_compute. split; reflexivity. Qed.
+
+(* command corner: "g____cmd____cmd" *)
+Example c35_ex_cmd :
+  ToCommandChannel (hx "67") = hx "675f5f5f5f636d64"
+  /\ FromCommandChannel (hx "675f5f5f5f636d64") = (hx "67", true)
+  /\ ToCommandChannel (hx "675f5f5f5f636d64") = hx "675f5f5f5f636d64"
+  /\ FromCommandChannel (hx "675f5f5f5f636d645f5f5f5f636d64") = (hx "675f5f5f5f636d64", true).
+Proof. vm_compute. repeat split. Qed.
